@@ -80,7 +80,7 @@ def model_obs(case):
 
 
 def run_structural(pid, tier, seed, prop_module, audit_file, profiles, oracle, projection, checker_cmd,
-                   note_assumptions=(), extra_lean_targets=(), known_classes=None, rule_note="", extra=None):
+                   note_assumptions=(), extra_lean_targets=(), known_classes=None, rule_note="", extra=None, extra_props=()):
     """profiles: list of (generator-profile, n_quick, n_thorough)
     oracle(case, obs, A, norm) -> list of (class, message): failures of the property on the implementation
     projection(obs, A, norm) -> list of canonical lines: what the property looks at (for the correspondence)"""
@@ -92,8 +92,10 @@ def run_structural(pid, tier, seed, prop_module, audit_file, profiles, oracle, p
     c.extract()
     c.lake_build(["zvspec"])
     proved = c.prove(prop_module, audit_file, extra_lean_targets)
+    for em, ea in extra_props:
+        proved = c.prove(em, ea) and proved
     if tier == "thorough" and proved:
-        c.leanchecker([prop_module])
+        c.leanchecker([prop_module] + [em for em, _ in extra_props])
     model_ok, model_err = c.lake_build(["zvdrv"])
 
     root = g.scratch(f"{pid}-{tier}-{seed}")
